@@ -14,4 +14,129 @@ def lockSites : List LockSite := [
   ⟨"converged_charging.go:NotifyRecharge:ue.CULock", 2, 0, 0, 0, 0⟩
 ]
 
+/-- functions of the request path: id, where, locks the subscriber's mutex itself, accesses to the subscriber's shared state
+    while it holds the mutex / while it does not, named exception, entered from the router -/
+def fnFacts : List FnFact := [
+  ⟨0, "api_convergedcharging.go:getConvergenChargingRoutes", false, 0, 0, "", false⟩,
+  ⟨1, "api_convergedcharging.go:ChargingdataChargingDataRefReleasePost", false, 0, 0, "", true⟩,
+  ⟨2, "api_convergedcharging.go:ChargingdataChargingDataRefUpdatePost", false, 0, 0, "", true⟩,
+  ⟨3, "api_convergedcharging.go:ChargingdataPost", false, 0, 0, "", true⟩,
+  ⟨4, "api_convergedcharging.go:RechargeGet", false, 0, 0, "", true⟩,
+  ⟨5, "api_convergedcharging.go:RechargePut", false, 0, 0, "", true⟩,
+  ⟨6, "api_offlineonlycharging.go:getOfflineOnlyChargingRoutes", false, 0, 0, "", false⟩,
+  ⟨7, "api_offlineonlycharging.go:OfflinechargingdataOfflineChargingDataRefReleasePost", false, 0, 0, "", true⟩,
+  ⟨8, "api_offlineonlycharging.go:OfflinechargingdataOfflineChargingDataRefUpdatePost", false, 0, 0, "", true⟩,
+  ⟨9, "api_offlineonlycharging.go:OfflinechargingdataPost", false, 0, 0, "", true⟩,
+  ⟨10, "api_spendinglimitcontrol.go:getSpendingLimitControlRoutes", false, 0, 0, "", false⟩,
+  ⟨11, "api_spendinglimitcontrol.go:SubscriptionsPost", false, 0, 0, "", true⟩,
+  ⟨12, "api_spendinglimitcontrol.go:SubscriptionsSubscriptionIdDelete", false, 0, 0, "", true⟩,
+  ⟨13, "api_spendinglimitcontrol.go:SubscriptionsSubscriptionIdPut", false, 0, 0, "", true⟩,
+  ⟨14, "routes.go:applyRoutes", false, 0, 0, "", false⟩,
+  ⟨15, "server.go:NewServer", false, 0, 0, "", false⟩,
+  ⟨16, "server.go:newRouter", false, 0, 0, "", false⟩,
+  ⟨17, "server.go:Run", false, 0, 0, "", false⟩,
+  ⟨18, "server.go:Stop", false, 0, 0, "", false⟩,
+  ⟨19, "server.go:startServer", false, 0, 0, "", false⟩,
+  ⟨20, "cdr.go:OpenCDR", false, 0, 1, "", false⟩,
+  ⟨21, "cdr.go:UpdateCDR", false, 0, 0, "", false⟩,
+  ⟨22, "cdr.go:CloseCDR", false, 0, 0, "", false⟩,
+  ⟨23, "cdr.go:dumpCdrFile", false, 0, 0, "", false⟩,
+  ⟨24, "converged_charging.go:min", false, 0, 0, "", false⟩,
+  ⟨25, "converged_charging.go:NotifyRecharge", true, 2, 0, "", false⟩,
+  ⟨26, "converged_charging.go:SendChargingNotification", false, 0, 0, "", false⟩,
+  ⟨27, "converged_charging.go:HandleChargingdataInitial", false, 0, 0, "", false⟩,
+  ⟨28, "converged_charging.go:HandleChargingdataUpdate", false, 0, 0, "", false⟩,
+  ⟨29, "converged_charging.go:HandleChargingdataRelease", false, 0, 0, "", false⟩,
+  ⟨30, "converged_charging.go:ChargingDataCreate", true, 5, 0, "", false⟩,
+  ⟨31, "converged_charging.go:ChargingDataUpdate", true, 5, 0, "", false⟩,
+  ⟨32, "converged_charging.go:ChargingDataRelease", true, 2, 0, "", false⟩,
+  ⟨33, "converged_charging.go:BuildOnlineChargingDataCreateResopone", false, 0, 1, "", false⟩,
+  ⟨34, "converged_charging.go:BuildConvergedChargingDataUpdateResopone", false, 0, 0, "", false⟩,
+  ⟨35, "converged_charging.go:getUnitCost", false, 0, 0, "", false⟩,
+  ⟨36, "converged_charging.go:sessionChargingReservation", false, 0, 35, "", false⟩,
+  ⟨37, "processor.go:NewProcessor", false, 0, 0, "", false⟩,
+  ⟨38, "chf_context_init.go:InitChfContext", false, 0, 0, "", false⟩,
+  ⟨39, "chf_context_init.go:AddNfServices", false, 0, 0, "", false⟩,
+  ⟨40, "context.go:Init", false, 0, 0, "", false⟩,
+  ⟨41, "context.go:AuthorizationCheck", false, 0, 0, "", false⟩,
+  ⟨42, "context.go:AddChfUeToUePool", false, 0, 0, "", false⟩,
+  ⟨43, "context.go:NewCHFUe", false, 0, 0, "", false⟩,
+  ⟨44, "context.go:ChfUeFindBySupi", false, 0, 0, "", false⟩,
+  ⟨45, "context.go:GenerateRatingSessionId", false, 0, 0, "", false⟩,
+  ⟨46, "context.go:GenerateAccountSessionId", false, 0, 0, "", false⟩,
+  ⟨47, "context.go:GetSelf", false, 0, 0, "", false⟩,
+  ⟨48, "context.go:GetSelfID", false, 0, 0, "", false⟩,
+  ⟨49, "context.go:GetTokenCtx", false, 0, 0, "", false⟩,
+  ⟨50, "ue_context.go:FindRatingGroup", false, 0, 1, "", false⟩,
+  ⟨51, "ue_context.go:init", false, 0, 21, "constructor: the context is not published yet", false⟩,
+  ⟨52, "rating.go:SendServiceUsageRequest", false, 0, 2, "", false⟩,
+  ⟨53, "rating.go:HandleSUA", false, 0, 0, "", false⟩,
+  ⟨54, "abmf.go:SendAccountDebitRequest", false, 0, 2, "", false⟩,
+  ⟨55, "abmf.go:HandleCCA", false, 0, 0, "", false⟩
+]
+
+/-- calls between them: caller, callee, made while the caller holds the subscriber's mutex -/
+def callFacts : List CallFact := [
+  ⟨1, 29, false⟩,
+  ⟨2, 28, false⟩,
+  ⟨3, 27, false⟩,
+  ⟨5, 25, false⟩,
+  ⟨15, 16, false⟩,
+  ⟨16, 0, false⟩,
+  ⟨16, 6, false⟩,
+  ⟨16, 10, false⟩,
+  ⟨16, 14, false⟩,
+  ⟨17, 19, false⟩,
+  ⟨20, 47, false⟩,
+  ⟨25, 26, false⟩,
+  ⟨25, 44, false⟩,
+  ⟨25, 47, false⟩,
+  ⟨27, 30, false⟩,
+  ⟨28, 31, false⟩,
+  ⟨29, 32, false⟩,
+  ⟨30, 20, true⟩,
+  ⟨30, 21, true⟩,
+  ⟨30, 22, false⟩,
+  ⟨30, 43, false⟩,
+  ⟨30, 47, false⟩,
+  ⟨31, 20, true⟩,
+  ⟨31, 21, true⟩,
+  ⟨31, 22, true⟩,
+  ⟨31, 23, true⟩,
+  ⟨31, 34, true⟩,
+  ⟨31, 44, false⟩,
+  ⟨31, 47, false⟩,
+  ⟨32, 21, true⟩,
+  ⟨32, 22, true⟩,
+  ⟨32, 23, true⟩,
+  ⟨32, 36, true⟩,
+  ⟨32, 44, false⟩,
+  ⟨32, 47, false⟩,
+  ⟨33, 36, false⟩,
+  ⟨34, 36, false⟩,
+  ⟨35, 52, false⟩,
+  ⟨36, 24, false⟩,
+  ⟨36, 35, false⟩,
+  ⟨36, 44, false⟩,
+  ⟨36, 47, false⟩,
+  ⟨36, 50, false⟩,
+  ⟨36, 52, false⟩,
+  ⟨36, 54, false⟩,
+  ⟨38, 39, false⟩,
+  ⟨40, 38, false⟩,
+  ⟨43, 44, false⟩,
+  ⟨43, 51, false⟩,
+  ⟨49, 49, false⟩,
+  ⟨51, 45, false⟩,
+  ⟨51, 46, false⟩,
+  ⟨52, 53, false⟩,
+  ⟨54, 55, false⟩
+]
+
+/-- statements that change the global sequence counters: where, which, kind (0 atomic add of 1, 1 `++`, 2 anything else) -/
+def counterSites : List CounterSite := [
+  ⟨"cdr.go:OpenCDR", "LocalRecordSequenceNumber", 1⟩,
+  ⟨"converged_charging.go:ChargingDataCreate", "ChargingSessionSequence", 0⟩
+]
+
 end Chf.Gen
